@@ -781,6 +781,33 @@ def rec_dataset(tier, seed, recs):
                 what = "%s + %s.load_data %s" % (label, type(env).__name__, why)
                 recs += side_by_side("dataset", what, env, td_o, env, td_r, c, dt, True, True, seed)
                 n += 1
+                # the same path read a SECOND time (Lightning's setup reads a file once per stage) gives the same instances
+                td_r2, err = attempt(lambda: env.load_data(fn))
+                if err:
+                    recs += failed("dataset", label + " + second %s.load_data of the same file" % type(env).__name__, dsize, err)
+                else:
+                    c2, dt2, why2 = td_compare(td_o, td_r2)
+                    recs += side_by_side("dataset", "%s + SECOND %s.load_data of the same file %s" % (label, type(env).__name__, why2),
+                                         env, td_o, env, td_r2, c2, dt2, True, True, seed)
+                    n += 1
+    # a file OVERWRITTEN under the same name reads back as its new content
+    for (problem, envname, size, dist) in GEN_CASES[:2]:
+        fn = os.path.join(d, "overwritten", "%s_%s_%d.npz" % (problem, dist, size))
+        env = make_env(envname, {"num_loc": size}, seed=seed + 5)
+        for k, s in enumerate((777 + seed, 888 + seed)):
+            generate_dataset(filename=fn, problem=problem, data_distribution=dist or "all", dataset_size=2, graph_sizes=[size],
+                             overwrite=True, seed=s)
+            np.random.seed(s)
+            td_o = in_memory_equivalent(problem, generate_env_data(problem, 2, size, dist))
+            label = "%s file %s (seed %d)" % (envname, "written" if k == 0 else "OVERWRITTEN under the same name", s)
+            td_r, err = attempt(lambda: env.load_data(fn))
+            if err:
+                recs += failed("dataset", label + " + load_data", 2, err)
+                continue
+            c, dt, why = td_compare(td_o, td_r)
+            recs += side_by_side("dataset", label + " + %s.load_data %s" % (type(env).__name__, why), env, td_o, env, td_r, c, dt,
+                                 True, True, seed)
+            n += 1
     return n
 
 
